@@ -889,6 +889,11 @@ func (r *relayRig) events(add func(sim.Event)) {
 	for i, p := range r.peers {
 		p := p
 		if p.cur != nil && !p.done {
+			if len(p.out) == 0 && p.after == "reset" && p.resetArmed && !p.end.Peer().IsClosed() {
+				if d, f := p.end.Peer().Pending(); d+f > 0 {
+					continue // the reset waits until the proxy has read what was sent: nothing to do yet
+				}
+			}
 			add(sim.Event{Key: fmt.Sprintf("backend.emit/p%03d", i), Actor: fmt.Sprintf("backend:%d", i), Fire: func() {
 				if p.end.Peer().IsClosed() {
 					// the proxy has closed this connection: a backend that goes on writing gets a reset and
